@@ -8,7 +8,7 @@
    top of its part of the stack (or fails with VarNotFound), the globals related; [need] values of stack and [dn] frames
    suffice.  [rhs_sim9], [stmt_sim9]: right-hand sides and statements under that hypothesis. *)
 From Coq Require Import List NArith ZArith Bool Lia.
-From Cao Require Import ListUtil CheckUtil Bits Stacks Bytecode Compiler CompilerProofs CompilerWf CompilerOk CardAst.
+From Cao Require Import ListUtil CheckUtil Bits Stacks Bytecode Compiler CompilerProofs CompilerWf CompilerOk CompilerResolve CardAst.
 From Cao Require Import Vm VmProofs C04VmProofs C01SimVm C01SimVmLocals C01SimDefs C01SimRef C01SimF1 C01SimDefs2 C01SimF2.
 From Cao Require Import C01SimDefs4 C01SimDefs5 C01SimRef5 C01SimF5 C01SimVm9 C01SimDefs9 C01SimF9.
 From Cao Require RefSem.
@@ -31,6 +31,17 @@ Proof.
   - intros H. injection H as <-. constructor.
   - destruct (ev g e) as [v|] eqn:Ev; [|discriminate]. destruct (evs9 g r) as [ws|]; [|discriminate].
     intros H. injection H as <-. constructor; [eapply ev_simple; eauto | apply IH; reflexivity].
+Qed.
+
+Lemma names_next_length9 Ln c : (length Ln <= length (names_next Ln c) <= S (length Ln))%nat.
+Proof.
+  destruct c; cbn [names_next]; try lia.
+  match goal with |- context [lmem ?x Ln] => destruct (lmem x Ln) end; cbn [length]; lia.
+Qed.
+Lemma names_end_length9 cards : forall Ln, (length Ln <= length (names_end Ln cards))%nat.
+Proof.
+  induction cards as [|c r IH]; intros Ln; cbn [names_end]; [lia|].
+  etransitivity; [|apply IH]. apply names_next_length9.
 Qed.
 
 Section Run9b.
@@ -476,6 +487,108 @@ Proof.
       eapply steps9_trans; [exact Hst|]. apply steps9_1.
       rewrite app_assoc, bytes_snoc. change (spanN (ISetLocalVar _)) with 5. exact Hset.
     + split; [|reflexivity]. eapply rhs_err_cont9; eauto.
+Qed.
+
+(* ------------------------------------------------------------------ the cards of a function body *)
+Lemma cont9_endp a R gv top hp e1 e2 out R' g' :
+  out <> ONorm9 -> cont9 a R gv top hp e1 out R' g' -> cont9 a R gv top hp e2 out R' g'.
+Proof. intros Ho [Hs H]. split; [exact Hs|]. destruct out; [congruence | exact H | exact H]. Qed.
+
+Lemma top_sim9 c R g out R' g' :
+  top9 sg ret (lnames R) c = true -> run9 cs R g c = (out, R', g') ->
+  forall pre gv top hp,
+    seg' pre (code9 T FT (lnames R) (bytes pre) c) -> names_ok (stmt_gnames9 (lnames R) c) ->
+    N.to_nat (fr_off top) = length below ->
+    (S (S (length below + length R) + stmt_depth9 c) + need < cap)%nat -> grel' g gv -> gsimple (R ++ g) ->
+    cont9 (bytes pre) R gv top hp (bytes (pre ++ code9 T FT (lnames R) (bytes pre) c)) out R' g' /\
+    (out = ONorm9 -> lnames R' = names_next (lnames R) c).
+Proof.
+  intros Hc Hrun pre gv top hp Hseg Hnames Hoff Hroom Hrel Hsimp.
+  assert (Hstmt : stmt9 sg ret (lnames R) c = true -> names_next (lnames R) c = lnames R ->
+                  cont9 (bytes pre) R gv top hp (bytes (pre ++ code9 T FT (lnames R) (bytes pre) c)) out R' g' /\
+                  (out = ONorm9 -> lnames R' = names_next (lnames R) c)).
+  { intros H9 Hnx. destruct (stmt_sim9_all c R g out R' g' H9 Hrun pre gv top hp Hseg Hnames Hoff ltac:(lia) Hrel Hsimp) as [A B].
+    split; [exact A|]. intros _. rewrite Hnx. exact B. }
+  destruct c; try (apply Hstmt; [exact Hc | reflexivity]).
+  cbn [top9] in Hc. apply andb_true_iff in Hc. destruct Hc as [Hx Hr].
+  destruct (lmem name (lnames R)) eqn:Hm.
+  - apply Hstmt; [cbn [stmt9]; rewrite Hx, Hm, Hr; reflexivity | cbn [names_next]; rewrite Hm; reflexivity].
+  - (* the declaration *)
+    cbn [run9 code9 stmt_gnames9 stmt_depth9 names_next] in *. rewrite Hm.
+    pose proof (proj1 (gsimple_app9 R g) Hsimp) as [HsR Hsg].
+    set (cr := code_rhs9 T FT (lnames R) c) in *.
+    pose proof (rhs_sim9 c pre R g gv top hp Hr (seg_app_l _ _ _ _ Hseg) Hnames Hoff ltac:(lia) Hrel Hsimp) as Hrhs. fold cr in Hrhs.
+    destruct (lmem_none _ _ Hm) as [_ Hs]. unfold set_slot in *. rewrite Hs in *.
+    destruct (run_rhs9 cs R g c) as [[v|] g1]; injection Hrun as <- <- <-.
+    + destruct Hrhs as (k & gv1 & top1 & hp1 & Hst & Hfo & Hrel1 & Hsg1 & Hv).
+      unfold sets_local. change (map fst R) with (lnames R). rewrite Hm.
+      split; [|intros _; reflexivity].
+      pose proof (seg_instr _ _ _ _ (seg_app_r _ _ _ _ Hseg)) as Hci. rewrite lnames_length in *.
+      assert (Hi32 : N.of_nat (length R) < 4294967296) by (unfold cap, stack_size in *; lia).
+      pose proof (ex9_set_local_decl _ (N.of_nat (length R)) (below ++ lstack R) (to_vm v) gv1 top1 rest hp1 Hci Hi32) as Hset.
+      rewrite Hfo, Hoff, Nat2N.id in Hset.
+      specialize (Hset ltac:(rewrite app_length, lstack_length; lia) ltac:(rewrite app_length, lstack_length; lia)).
+      split; [cbn [app]; constructor; [exact Hv | apply gsimple_app9; auto]|].
+      exists (k + 1)%nat, gv1, top1, hp1. split; [|auto].
+      eapply steps9_trans; [exact Hst|]. apply steps9_1.
+      rewrite app_assoc, bytes_snoc. change (spanN (ISetLocalVar _)) with 5.
+      rewrite lstack_cons, app_assoc. exact Hset.
+    + split; [|discriminate]. eapply rhs_err_cont9; eauto.
+Qed.
+
+Lemma body_sim9 : forall cards R g out R' g',
+  cards9 sg ret (lnames R) cards = true -> runs9 cs R g cards = (out, R', g') ->
+  forall pre gv top hp,
+    seg' pre (code_top9 T FT (lnames R) (bytes pre) cards) -> names_ok (top_gnames9 (lnames R) cards) ->
+    N.to_nat (fr_off top) = length below ->
+    (forall c, In c cards -> (S (S (length below + length (names_end (lnames R) cards)) + stmt_depth9 c) + need < cap)%nat) ->
+    grel' g gv -> gsimple (R ++ g) ->
+    cont9 (bytes pre) R gv top hp (bytes (pre ++ code_top9 T FT (lnames R) (bytes pre) cards)) out R' g' /\
+    (out = ONorm9 -> lnames R' = names_end (lnames R) cards).
+Proof.
+  induction cards as [|c r IH]; intros R g out R' g' Hc Hrun pre gv top hp Hseg Hnames Hoff Hd Hrel Hsimp.
+  - cbn [runs9] in Hrun. injection Hrun as <- <- <-. cbn [code_top9 names_end]. rewrite app_nil_r.
+    split; [apply cont9_done; assumption | reflexivity].
+  - cbn [cards9] in Hc. apply andb_true_iff in Hc. destruct Hc as [Hc Hcr].
+    cbn [runs9 code_top9 top_gnames9 names_end] in *. cbv zeta in *.
+    set (cc := code9 T FT (lnames R) (bytes pre) c) in *.
+    assert (Hnc : names_ok (stmt_gnames9 (lnames R) c)) by (intros x Hx; apply Hnames, in_or_app; auto).
+    assert (Hnr : names_ok (top_gnames9 (names_next (lnames R) c) r)) by (intros x Hx; apply Hnames, in_or_app; auto).
+    assert (Eb : bytes (pre ++ cc) = bytes pre + bytes cc) by apply bytes_app.
+    pose proof (names_end_length9 r (names_next (lnames R) c)) as Hlen1.
+    pose proof (names_next_length9 (lnames R) c) as Hlen0. rewrite lnames_length in Hlen0.
+    assert (Hdc : (S (S (length below + length R) + stmt_depth9 c) + need < cap)%nat).
+    { specialize (Hd c (or_introl eq_refl)). lia. }
+    destruct (run9 cs R g c) as [[o1 R1] g1] eqn:E1.
+    destruct (top_sim9 c R g o1 R1 g1 Hc E1 pre gv top hp (seg_app_l _ _ _ _ Hseg) Hnc Hoff Hdc Hrel Hsimp) as [H1 Hl1].
+    fold cc in H1.
+    destruct o1.
+    + destruct H1 as [Hs1 (k1 & gv1 & top1 & hp1 & Hst1 & Hfo1 & Hr1)]. specialize (Hl1 eq_refl).
+      destruct (IH R1 g1 out R' g' ltac:(rewrite Hl1; exact Hcr) Hrun (pre ++ cc) gv1 top1 hp1
+                   ltac:(rewrite Hl1, Eb; apply seg_app_r; exact Hseg) ltac:(rewrite Hl1; exact Hnr)
+                   ltac:(rewrite Hfo1; exact Hoff)
+                   ltac:(rewrite Hl1; intros c0 H0; apply Hd; right; exact H0) Hr1 Hs1) as [H2 Hl2].
+      rewrite Hl1, Eb in H2. rewrite <- app_assoc in H2. split; [|rewrite Hl1 in Hl2; exact Hl2].
+      rewrite Eb in Hst1. eapply cont9_prepend; [exact Hst1 | exact Hfo1 | exact H2].
+    + injection Hrun as <- <- <-. split; [|discriminate]. eapply cont9_endp; [discriminate | exact H1].
+    + injection Hrun as <- <- <-. split; [|discriminate]. eapply cont9_endp; [discriminate | exact H1].
+Qed.
+
+(* one Pop per local of the frame *)
+Lemma pops9 l : forall pre gv calls hp,
+  seg' pre (repeat IPop (length l)) ->
+  steps9' (length l) (bytes pre, below ++ l, gv, calls, hp) (bytes (pre ++ repeat IPop (length l)), below, gv, calls, hp).
+Proof.
+  induction l as [|v l IH] using rev_ind; intros pre gv calls hp Hseg.
+  - cbn [length repeat]. rewrite !app_nil_r. constructor.
+  - rewrite app_length in *. cbn [length] in *. rewrite Nat.add_1_r in *. cbn [repeat] in *.
+    pose proof (seg_instr _ _ _ _ Hseg) as Hc.
+    change (IPop :: repeat IPop (length l)) with ([IPop] ++ repeat IPop (length l)) in Hseg.
+    apply seg_app_r in Hseg.
+    econstructor.
+    { apply exec1_exec9. rewrite app_assoc. apply (@ex_pop F bld P cap calls hp None [] (bytes pre) (below ++ l) v gv Hc). }
+    specialize (IH (pre ++ [IPop]) gv calls hp Hseg). rewrite bytes_snoc in IH. change (spanN IPop) with 1 in IH.
+    rewrite <- app_assoc in IH. exact IH.
 Qed.
 
 End Body.
